@@ -1,6 +1,7 @@
 /-
   C04 — size-aware models, continuation: mpz/and.c, ior.c, xor.c (every sign case, temporaries, the pointer
-  re-reads after `_mpz_realloc`), mpz/mul_i.h (mpz_mul_ui).  Core Lean only.  On the memory model of
+  re-reads after `_mpz_realloc`), mpz/mul_i.h (mpz_mul_ui).  Theorems: MpirProofs/Props/C04_allocsafe2.lean
+  (and, xor, mul_ui; ior is tied by the ops only).  Core Lean only.  On the memory model of
   Mpir/Model/AllocSafe.lean; statement by statement after the C, file:line cited.
 
   Temporary space (`TMP_ALLOC`) is a block of its own (`Buf`) that no variable's `_mp_d` ever points to; a read
@@ -306,9 +307,9 @@ def mul_ui (plus : Nat) (s : St) (prod mult : Nat) (small_mult : Nat) : St :=
   if size == 0 || small_mult == 0 then s.setSize prod 0       -- mul_i.h:57-61
   else
     let size := size.natAbs                                   -- mul_i.h:63
-    let sign_product := s.SIZ mult                            -- mul_i.h:51 (sign kept)
+    let sign_product := s.SIZ mult                            -- mul_i.h:52
     let s := MPZ_REALLOC s prod (size + plus)                 -- mul_i.h:69
-    let pp := s.PTR prod                                      -- mul_i.h:69 (the macro's value)
+    let pp := s.PTR prod                                      -- mul_i.h:70
     let (s, cy) := mpn_mul_1 s pp (s.PTR mult) size small_mult   -- mul_i.h:71
     let s := s.store pp size cy                               -- mul_i.h:72
     let size := size + (if cy != 0 then 1 else 0)             -- mul_i.h:73
